@@ -130,7 +130,11 @@ pub fn gen_probe(n: u64, seed: u64, show: usize) {
     let mut fuels: Vec<(u64, u64, usize)> = Vec::new();
     for i in 0..n {
         let mut rng = rng::Rng::for_case(seed, "probe", i);
-        let p = gen::generate(&mut rng, gen::Cfg::general(3));
+        let mut cfg = gen::Cfg::general(2 + (i % 2) as u32);
+        if i % 4 == 3 {
+            cfg.profile = gen::Profile::Reentrant;
+        }
+        let p = gen::generate(&mut rng, cfg);
         let text = print::canonical(&p);
         let r = refsem::run_program(&p, 50_000);
         *outcomes.entry(format!("{:?}", r.outcome).chars().take(60).collect()).or_insert(0) += 1;
